@@ -27,9 +27,10 @@ import json
 
 import compat  # noqa: F401
 from props.base import corpus_for
+from props import c08_api
 
 ID = 'C08'
-LEAN_MODULES = ['PybtexModel.Props.C08']
+LEAN_MODULES = ['PybtexModel.Props.C08', 'PybtexModel.Props.C08Api']
 THEOREMS = {
     'C08_tables': 'the regenerated constants the model depends on: every entry of textutils.terminators is one character; whitespace_re is \\s+',
     'C08_mk_sem': 'construction from nested parts: the constructor (drop empties, unpack Text, merge similar neighbours) keeps the string of pairs; every built object is in normal form',
@@ -69,6 +70,16 @@ THEOREMS = {
     'C08_normal_preserved': 'normal form (no empty part, no nested Text, no adjacent similar parts) is preserved by +, append and join of objects, and every piece of split at ANY separator (multi-character ones included) is an object; for slice / case / capfirst / capitalize / add_period / abbreviate it is part of the respective theorem',
     'C08_normal_preserved_nonvacuous': "non-vacuity: two em tags side by side are not an object as a raw tree, but +, append, join of the two objects (and the pieces of a split at ', ') are objects",
     'C08_history_normal': 'normal form is an invariant of EVERY history whose operands are objects -- also over the operations not covered by C08_history / C08_history_full -- for the ASCII and for any case mapping: every text a step returns is an object',
+    'C08_ctor': 'construction from nested parts with ARBITRARY Python arguments (Model/RichTextApi.lean eval: ensure_text, the name / URL checks of Tag / HRef, __check_name, String(*parts)): the expression evaluates without an exception iff it is well typed (syntactic test Arg.wellTyped), and then the object has the class and the string of pairs the expression denotes (a tag name / URL given as a rich text counts as its characters, emph as em) and is in normal form',
+    'C08_ctor_nonvacuous': "non-vacuity: Tag(Text('em','ph'), 'a', Tag('emph', <nbsp>), Text('b')) evaluates to Tag('em', 'a', Tag('em', <nbsp>), 'b') with two deprecation warnings; a Tag as tag name / an int as part are refused with the messages of the source; HRef(Symbol) keeps str(url); String('a', String('b')) is a TypeError",
+    'C08_ctor_checks': 'decision logic of the argument checks for every value: ensure_text refuses exactly non-str non-text values, Tag accepts as name exactly str or Text, HRef as URL str or any rich text, String(...) exactly str arguments; __check_name maps emph to em, is idempotent and warns exactly for emph',
+    'C08_getitem_key': 'text[key] for ANY key acts on the string of pairs as the Python operation (refinement to Abs.getItemKey for every key: int -> one-pair slice or IndexError; slice -> the Python extended slice s[i:j:k] of the pairs for a String / Symbol, NotImplementedError for a multipart text unless the step is None / 1; step 0 -> ValueError; any other key -> TypeError); a slice with step None / 1 is getSlice, so C08_slice speaks about the public __getitem__',
+    'C08_extslice': 'the model of slice.indices + index arithmetic is the Python extended slice for every list, all bounds and every step other than 0: every k-th element of the step-1 slice for k > 0, every |k|-th element of the step-1 slice of the reversed string with mirrored bounds for k < 0; s[::-1] is the reversed string',
+    'C08_getitem_key_witness': "witnesses: Text('ab', Tag('em','cd'))[1:3] through the key interface; 'abcdef'[::-1], [4:0:-2], [1::2] on a String agree with the reference pyExtSlice; the same steps on a Text raise NotImplementedError; Symbol[::-1] is the symbol, Symbol[1::2] the empty String",
+    'C08_contains_any': "[model wiring for the str case] `item in text`: with a str it is contains; with any other value a Symbol answers False and every other class raises TypeError",
+    'C08_split_refused': "split at a separator String.split refuses ('' -> ValueError, wrong type -> TypeError): raises exactly when the text has a String outside every Protected; otherwise at most one piece (exactly one unless keep_empty_parts=False) that spells the text: protected text and symbols are never split",
+    'C08_split_keep_nonempty': 'split(sep, keep_empty_parts=True) never returns an empty list (literal separator, white space, compiled patterns): the branch `if not split_part: continue` of BaseMultipartText.split is dead code',
+    'C08_split_refused_nonvacuous': "non-vacuity: Text(<nbsp>, Protected('a b')).split('') is the text itself; Text('a', <nbsp>).split('') raises ValueError, .split(5) TypeError; Text().split('') is [Text()], [] with keep_empty_parts=False",
     'C08_history_normal_nonvacuous': "non-vacuity: a history with object operands containing a split at the two-character separator ', ' (not Covered): every outcome is an object",
 }
 LEVEL_TEXT = ('Machine-checked proofs (Lean 4) over an executable model that follows pybtex/richtext.py method by method: the constructor and '
@@ -81,7 +92,11 @@ LEVEL_TEXT = ('Machine-checked proofs (Lean 4) over an executable model that fol
               'multi-character separator, split(None, keep_empty_parts=True) and split at the run pattern -+); normal form is an invariant of EVERY '
               'history, covered or not (C08_history_normal).  The model is tied to '
               'the code by a correspondence check that compares, for every tree of an exhaustive small scope x every slice/index/operation '
-              'and for random histories, the normal-form tree, the rendering with a tracing backend, str, len and every result.')
+              'and for random histories, the normal-form tree, the rendering with a tracing backend, str, len and every result.  The API surface is inside the model '
+              'too (Model/RichTextApi.lean, theorems C08_ctor*, C08_getitem_key*, C08_contains_any, C08_split_refused): constructor calls with arbitrary '
+              'arguments (ensure_text, name / URL checks and their messages, the alias emph, names / URLs given as rich text, String(*parts)), text[key] '
+              'for any key (bool, slices with a step, step 0, wrong types), `in` with a non-str, split at a refused separator -- each with its own '
+              'function-level correspondence op, as have the private helpers _slice_beginning / _slice_end / _merge_similar / _unpack / _typeinfo.')
 LEVEL_NOTE = ('Trusted: Lean kernel; axioms propext/Classical.choice/Quot.sound only; the model (Model/RichText.lean, Model/RichTextU.lean) corresponds to the code only as '
               'far as the differential check explores; the reference semantics Spec/RichText.lean, Spec/RichTextU.lean (sem, Flat.*, Abs.*) must be read and agreed '
               'with. NOT proved, but specified as list operations on the pairs (Abs.splitG / Abs.splitReG) and compared with the code on every case: split at '
@@ -91,8 +106,10 @@ LEVEL_NOTE = ('Trusted: Lean kernel; axioms propext/Classical.choice/Quot.sound 
               'Case laws that relate case and slicing hold on the decidable domain "every unprotected character has one-character images" (C08_case_slice_partial) and fail '
               'outside it exactly as for Python strings (C08_case_slice_neg). "operands are never modified" is checked on the implementation only '
               '(the model is pure). C08_eq_other is model wiring (eqVal is defined that way; carried by the correspondence check). Flat.slice reuses the Model '
-              'helper RT.strSlice (the plain drop/take formula; C08_slice also states the slice against pySlice for concrete bounds). Outside the model: U+03A3 (str.lower chooses between σ and ς by context: the generators never emit Σ σ ς), the deprecated tag alias emph, '
-              'tag names / URLs given as Text, slices with a step, the deprecated pre-0.19 methods.')
+              'helper RT.strSlice (the plain drop/take formula; C08_slice also states the slice against pySlice for concrete bounds). Outside the model: U+03A3 (str.lower chooses between σ and ς by context: the generators never emit Σ σ ς), '
+              'the deprecated pre-0.19 methods, render_as / from_latex (plugin loading / LaTeX parser: C09 and the markup parser), Symbol(name) with a name that is not a str. '
+              'The reference for s[i:j:k] is Spec/RichTextApi.lean pyExtSlice (every k-th element of the step-1 slice; of the reversed string with mirrored bounds for a '
+              'negative step): to be read and agreed with; the model of slice.indices is proved equal to it (C08_extslice) and compared with the interpreter on every run.')
 RULE = ('one evaluation = one rich-text tree with a list of at most 64 operations (fan: each applied to the tree; history: applied on top of '
         'one another); a slicetab operation evaluates every slice (i, j) in [-n-2, n+2]^2 plus the None bounds; '
         'non-trivial = the tree denotes a non-empty text; distinct by case JSON')
@@ -101,8 +118,8 @@ TRUSTED = ['the tracing backend and the tree builder / dumper of harness/props/c
            'Gen/UnicodeCase.lean, Gen/Unicode.lean; the generator re-reads its own table against the interpreter on every run); str.upper is context-free, '
            'str.lower is context-free except for U+03A3']
 ASSUMPTIONS = ['texts do not contain Greek sigma (U+03A3 / U+03C3 / U+03C2: str.lower() of U+03A3 depends on its neighbours, and part-wise lower-casing loses that '
-               'context at part boundaries); tag names / URLs are plain strings; the deprecated tag alias "emph", slices with a step and the pre-0.19 '
-               'deprecated methods are not modelled; compiled patterns handed to split are textutils.delimiter_re and -+ (the two the library uses)']
+               'context at part boundaries); the pre-0.19 deprecated methods, render_as and from_latex are not modelled; values that are neither str nor rich text enter '
+               'the constructor model only through type(value).__name__; compiled patterns handed to split are textutils.delimiter_re and -+ (the two the library uses)']
 
 # ------------------------------------------------------------------------------------------------
 # the implementation side
@@ -447,6 +464,11 @@ def snap(obj, res, frozen_ok):
 
 
 def impl(case):
+    if case['op'] in c08_api.OPS:      # function-level correspondence for the API surface / private helpers
+        try:
+            return c08_api.impl(case)
+        except Exception as e:
+            return {'exception': compat.pybtex_error_kind(e), 'detail': '%s' % e}
     out = []
     try:
         start = build(case['tree'])
@@ -484,6 +506,8 @@ def to_request(case):
 
 
 def model_out(case, reply):
+    if case['op'] in c08_api.OPS:
+        return c08_api.model_out(case, reply)
     steps = reply['out']
     for s in steps:
         s['f'] = True
@@ -518,6 +542,8 @@ def _diff(va, vb):
 def oracle(case, impl_out, reply):
     """The clauses of the property, evaluated on what the implementation did, with the reference values
     computed by plain list operations on the string of (atom, markup) pairs (`spec` of the driver)."""
+    if case['op'] in c08_api.OPS:
+        return c08_api.oracle(case, impl_out, reply)
     spec = reply['spec']
     if not isinstance(impl_out, list):
         k = min(len(impl_out.get('partial') or []), len(case['ops']))
@@ -636,6 +662,8 @@ def _stop_before_start(n, i, j):
 
 
 def buckets(case, impl_out):
+    if case['op'] in c08_api.OPS:
+        return c08_api.buckets(case, impl_out)
     b = ['fan' if case.get('fan') else 'history:%d' % len(case['ops'])]
     seen = set()
     for op in case['ops']:
@@ -648,6 +676,8 @@ def buckets(case, impl_out):
 
 
 def nontrivial(case, impl_out):
+    if case['op'] in c08_api.OPS:
+        return c08_api.nontrivial(case, impl_out)
     return isinstance(impl_out, list) and '"len":0,' not in impl_out[0]['v']
 
 
@@ -738,6 +768,8 @@ def _valid_op(op):
 
 
 def valid_case(case):
+    if isinstance(case, dict) and case.get('op') in c08_api.OPS:
+        return c08_api.valid_case(case)
     return (isinstance(case, dict) and case.get('op') == 'richtext' and _valid_tree(case.get('tree')) and
             isinstance(case.get('ops'), list) and all(_valid_op(op) for op in case['ops']) and
             case.get('fan') in (None, True, False))
@@ -967,8 +999,12 @@ def random_tree(rng, depth, top=False):
         kind = {'k': 'text'}
     elif k < 0.65:
         kind = {'k': 'tag', 'n': rng.choice(RICH_TAGS)}
+        if rng.random() < 0.15:
+            kind['nt'] = True       # the name is handed over as a Text object
     elif k < 0.82:
         kind = {'k': 'href', 'u': rng.choice(RICH_URLS), 'e': rng.random() < 0.5}
+        if rng.random() < 0.15:
+            kind['nt'] = True       # the URL is handed over as a rich text
     else:
         kind = {'k': 'prot'}
     return node(kind, [random_tree(rng, depth - 1) for _ in range(rng.randint(0, 4))])
@@ -1082,4 +1118,6 @@ def gen_cases(tier, rng, info):
     nrand = 4000 if tier == 'quick' else 100000
     for _ in range(nrand):
         cases.append(random_case(rng))
+    cases += c08_api.gen_cases(tier, rng, info)
+    info['scope'] += '; ' + info.pop('scope_api')
     return cases
